@@ -18,6 +18,9 @@ def _is_dt(r):
 
 @contract
 class EpochToDatetime:
+    # concrete instants (conventions of rt/oracles_time.epoch_to_datetime): before the epoch, around it, 1900 and 2200
+    directed = staticmethod(lambda: [('epoch_to_datetime', dict(epoch_time_milli=v)) for v in
+                                     (-1500, -1, 0, 1, 1001, -2208988800123, 7258118399999, 1262304000123)])
     qualname = 'csep.utils.time_utils.epoch_time_to_utc_datetime'
     case = 'epoch_time_milli:int'
     oracle = 'epoch_to_datetime'
@@ -63,6 +66,10 @@ EpochToDatetime.accepts = lambda c, epoch_time_milli: epoch_time_milli is not No
 
 class _DtToEpoch:
     float_model = "E"
+    # concrete instants in microseconds (conventions of rt/oracles_time.datetime_to_epoch): 1.001 s (the float product falls below the
+    # whole millisecond), sub-millisecond instants before the epoch (floor, not truncation), 1900 and 2200
+    directed = staticmethod(lambda: [('datetime_to_epoch', dict(us=v, tz=tz)) for tz in (None, 'UTC') for v in
+                                     (1001000, -1500, -1, 0, 999, 1000, -2208988800123456, 7258118399999999, 1262304000123000)])
     qualname = 'csep.utils.time_utils.datetime_to_utc_epoch'
     oracle = 'datetime_to_epoch'
     tz = None
